@@ -369,7 +369,14 @@ pub struct Caller {
     configs: Vec<ParserConfig>,
     sentinel: [usize; 4],
     pub calls: u64,
+    /// the last RECENT calls of this caller (lane, input), oldest first once rotated: if the
+    /// subject keeps state between calls, a violation may need them to reproduce
+    recent: Vec<(Lane, Vec<u8>)>,
+    recent_next: usize,
 }
+
+pub const RECENT: usize = 6;
+pub const RECENT_MAX_INPUT: usize = 2048;
 
 fn fld(buf: &[u8], p: *const u8, len: usize, flags: &mut u32) -> Fld {
     if len == 0 {
@@ -407,6 +414,8 @@ impl Caller {
             configs: (0..128u32).map(|b| make_config(b as u8)).collect(),
             sentinel: sentinel_words(),
             calls: 0,
+            recent: (0..RECENT).map(|_| (Lane::new(Entry::Chunk, 0, 0), Vec::with_capacity(RECENT_MAX_INPUT))).collect(),
+            recent_next: 0,
         }
     }
 
@@ -419,8 +428,24 @@ impl Caller {
         o
     }
 
+    /// The recorded recent calls in the order they were made (an input longer than
+    /// RECENT_MAX_INPUT is recorded as empty and skipped here).
+    pub fn recent_calls(&self) -> Vec<(Lane, Vec<u8>)> {
+        let n = (self.calls as usize).min(RECENT);
+        (0..n).map(|i| (self.recent_next + RECENT - n + i) % RECENT).map(|k| self.recent[k].clone()).filter(|(_, i)| !i.is_empty()).collect()
+    }
+
     pub fn call_unjournalled(&mut self, lane: &Lane, input: &[u8]) -> Obs {
         self.calls += 1;
+        {
+            let slot = &mut self.recent[self.recent_next];
+            slot.0 = *lane;
+            slot.1.clear();
+            if input.len() <= RECENT_MAX_INPUT {
+                slot.1.extend_from_slice(input);
+            }
+            self.recent_next = (self.recent_next + 1) % RECENT;
+        }
         let buf: &'static [u8] = self.inputs.place(input, lane.place);
         let cap = lane.cap as usize;
         let arr = self.headers.slot(cap * 32, Place::EndFlush) as *mut [usize; 4];
